@@ -25,7 +25,7 @@ Definition classify (s : stream) : stream :=
   if qltb (tt s) (ts s) then set_hot s
   else if qltb (ts s) (tt s) then set_cold s
   else if qleb 0 (q s) then set_cold (with_tt s (radd (ts s) latent_dT))
-  else set_hot (with_tt s (rsub (ts s) latent_dT)).
+  else set_hot (with_q (with_tt s (rsub (ts s) latent_dT)) (Qred (- q s))).
 
 Lemma classify_bounds s : Bounds (classify s).
 Proof.
@@ -39,7 +39,7 @@ Proof.
       * apply set_hot_bounds. simpl. rewrite rsub_eq. lra.
 Qed.
 
-Lemma classify_fields s : q (classify s) = q s /\ htc (classify s) = htc s /\ price (classify s) = price s
+Lemma classify_fields s : htc (classify s) = htc s /\ price (classify s) = price s
   /\ htr (classify s) = htr s /\ dt (classify s) = dt s.
 Proof. unfold classify. destruct (qltb (tt s) (ts s)), (qltb (ts s) (tt s)), (qleb 0 (q s)); simpl; repeat split. Qed.
 
